@@ -24,8 +24,27 @@ fn real_fields(p: &Paragraph) -> Vec<(String, String)> { p.iter().map(|(k, v)| (
 fn nonblank(v: &str) -> Vec<String> { v.split('\n').filter(|l| !l.is_empty()).map(|s| s.to_string()).collect() }
 
 /// print / re-read obligations at one state
+/// the same paragraph with every non-empty value line made LONG (the line repeated with ", " up to about `n` bytes)
+fn long_lines(p: &Paragraph, n: usize) -> Paragraph {
+    Paragraph { fields: p.iter().map(|(k, v)| Field { name: k.to_string(), value: v.split('\n').map(|l| {
+        if l.trim().is_empty() { l.to_string() } else { let mut s = l.to_string(); while s.len() < n { s.push_str(", "); s.push_str(l.trim_start()); } s }
+    }).collect::<Vec<_>>().join("\n") }).collect() }
+}
+
 fn check_roundtrip(o: &mut Outcome, p: &Paragraph, feats: &[String]) {
     if p.is_empty() { return; }
+    check_roundtrip_1(o, p, feats);
+    // ... and with long value lines (beyond 998 / 4096 / 65535 bytes a line): no line is folded, cut or dropped
+    if feats.iter().all(|f| f != "long_lines") && p.iter().any(|(_, v)| !v.trim().is_empty()) {
+        let mut f2 = feats.to_vec(); f2.push("long_lines".to_string());
+        let h = crate::conc::hash64(&p.to_string());
+        if h % 16 == 0 {
+            let n = if h % 512 == 0 { 70000 } else if h % 32 == 0 { 5000 } else { 1400usize };
+            check_roundtrip_1(o, &long_lines(p, n), &f2);
+        }
+    }
+}
+fn check_roundtrip_1(o: &mut Outcome, p: &Paragraph, feats: &[String]) {
     let text = match guarded("lossy::Paragraph::to_string", || p.to_string()) { Ok(t) => t, Err(m) => { o.v("C08", "print", "lossy::Paragraph Display", "panic", feats, "", m); return; } };
     match guarded("lossy::Paragraph::from_str", || Paragraph::from_str(&text)) {
         Ok(Ok(b)) => { if b != *p { o.v("C08", "lossy_reread", "lossy::Paragraph::from_str", "mismatch", feats, &text, format!("re-read {:?} != {:?}", real_fields(&b), real_fields(p))); } }
